@@ -394,7 +394,7 @@ func (c *Ctx) Finish(rule string) int {
 		"wall_s":      time.Since(c.Start).Seconds(),
 		"violations":  len(c.violations),
 	}
-	if c.Replay == "" && c.Prop != "SELFTEST" && c.Prop != "C12RACE" {
+	if c.Replay == "" && c.Prop != "SELFTEST" && c.Prop != "C12RACE" && os.Getenv("VERIF_NO_EVIDENCE") == "" {
 		os.MkdirAll(filepath.Join(home(), "evidence"), 0o755)
 		b, _ := json.MarshalIndent(ev, "", " ")
 		tmp := filepath.Join(home(), "evidence", c.Prop+".json.tmp")
